@@ -99,4 +99,9 @@ func init() {
 		Monitors: func() []mon.Monitor { return []mon.Monitor{mon.NewC20()} },
 		Plan:     plan([]run.PlanItem{pi("orders", 12)}, []run.PlanItem{pi("orders", 48)}),
 		Assume:   []string{boundsAssume, "market price read with the same exported functions the handlers use (amm.CalculateUSDValue, perpetual.GetAssetPrice); single-message transactions"}}
+	run.Props["C17"] = &run.PropSpec{ID: "C17", Level: "exploration",
+		Rule:     "enumeration of every /elys. sdk.Msg registered by the running app (signer field from cosmos.msg.v1.signer; gated = field named authority + explicit table for x/parameter). One evaluation = one (gated message, non-authorised sender) handler call on a discarded branch with the digest of all stores compared before/after, or one such message / owner-scoped attack sent through a real block (substitution twin AppHash equality); distinct = (message type, sender class, sender, state)",
+		Monitors: func() []mon.Monitor { return []mon.Monitor{mon.NewC17()} },
+		Plan:     plan([]run.PlanItem{pi("authz-sweep", 2)}, []run.PlanItem{pi("authz-sweep", 6)}),
+		Assume:   []string{boundsAssume, "complete over the registered message set x sender classes on the sampled states; a fixture that does not reach the signer check is listed as uncovered, not as held"}}
 }
